@@ -106,6 +106,13 @@ def programs():
         val("predec", "--%s" % W)
         val("addeq", "%s += 1" % W)
         val("addeq_T", "%s += e.t_int" % W, [("T", "int")])
+        # rlbox::memcmp compares the POINTEES, which are in sandbox memory wherever the pointer itself lives: only a hint comes out
+        val("memcmp_T", "rlbox::memcmp(e.sb, %s, e.t_pcchar, 4)" % W, [("T", "pcchar")])
+        val("memcmp_rT", "rlbox::memcmp(e.sb, e.t_pcchar, %s, 4)" % W, [("T", "pcchar")])
+        val("memcmp_plain", "rlbox::memcmp(e.sb, %s, e.p_pcchar, 4)" % W, [("Plain", "pcchar")])
+        val("memcmp_numT", "rlbox::memcmp(e.sb, %s, e.t_pcchar, e.t_int)" % W, [("T", "pcchar"), ("T", "int")])
+        val("memcpy_T", "rlbox::memcpy(e.sb, %s, e.t_pcchar, 4)" % W, [("T", "pcchar")])
+        val("memset_4", "rlbox::memset(e.sb, %s, 0, 4)" % W)
         val("reinterpret_cast", "rlbox::sandbox_reinterpret_cast<long*>(%s)" % W)
         val("const_cast", "rlbox::sandbox_const_cast<const int*>(%s)" % W)
         val("sstatic_cast", "rlbox::sandbox_static_cast<long>(%s)" % W)
@@ -179,6 +186,8 @@ def run(tier, seed, replay):
             return False
         if p.args[0][0] in ("BoolHint", "IntHint") and p.form.startswith("copy_and_verify"):
             return False
+        if p.form.startswith("memcmp") and v[0] not in ("BoolHint", "IntHint"):
+            return False
         # a hint among the operands: whatever comes out is again a hint (or nothing), unless the form is a named unwrapping call
         if any(k in ("BoolHint", "IntHint") for k, _ in p.args) and not declass(p) and v[0] not in ("BoolHint", "IntHint") and v[1] != "void":
             return False
@@ -202,12 +211,14 @@ def run(tier, seed, replay):
     ptys = [ids.ty(m2.CANON_TYPES[t]) for t in sorted(ptr_types)]
     cmps = [ids.form(f) for f in ids.forms if f.split("_")[0] in ("eq", "ne", "lt", "le", "gt", "ge") and not f.endswith("nullptr")]
     cavs = [ids.form(f) for f in ids.forms if f.startswith("copy_and_verify")]
+    mcs = [ids.form(f) for f in ids.forms if f.startswith("memcmp")]
     lines += ["",
               "Definition declass_forms : list nat := %s." % m2.nat_list(dfs),
               "Definition nulltest_forms : list nat := %s." % m2.nat_list(nfs),
               "Definition pointer_types : list nat := %s." % m2.nat_list(ptys),
               "Definition compare_forms : list nat := %s." % m2.nat_list(cmps),
               "Definition verifier_forms : list nat := %s." % m2.nat_list(cavs),
+              "Definition memcmp_forms : list nat := %s.   (* compare the pointees: sandbox memory whatever the operand wrappers *)" % m2.nat_list(mcs),
               "Definition memb (x : nat) (l : list nat) : bool := existsb (Nat.eqb x) l.",
               "(* the explicitly named unwrapping calls (and recorded finding D13), or a null test of a tainted pointer *)",
               "Definition declass (f : nat) (ts : list wt) : bool :=",
@@ -223,6 +234,7 @@ def run(tier, seed, replay):
               "  | Some w =>",
               "    negb (memb (form en) compare_forms && existsb (fun a => kind_eqb (wk a) KTV || is_hint a) (args en) && negb (is_hint w)) &&",
               "    negb (memb (form en) verifier_forms && match args en with a :: _ => is_hint a | [] => false end) &&",
+              "    negb (memb (form en) memcmp_forms && negb (is_hint w)) &&",
               "    (* a hint among the operands never comes out as a verifiable (non-hint) value, except through a named unwrapping call *)",
               "    negb (existsb is_hint (args en) && negb (declass (form en) (args en)) && negb (is_hint w) && negb (is_void w))",
               "  end.",
